@@ -418,3 +418,17 @@ Proof.
     destruct (rstep dbg h tbl s0 o) as [s' out]. rewrite IH. reflexivity. }
   rewrite <- !H. apply two_copies_independent.
 Qed.
+
+(* instance: LineRows (Model/LineRd.v) and its clone, next_row called on either in any order *)
+Require Import GV.Spec.LineSpec GV.Model.LineRd GV.Model.LineClone.
+Theorem line_rows_clone_independent_thm dbg be resumed h (st : lr_state) (ops : list (bool * unit)) :
+  side false (run2 (line_step dbg be resumed h) ops st st) = run1 (line_step dbg be resumed h) (side false ops) st /\
+  side true (run2 (line_step dbg be resumed h) ops st st) = run1 (line_step dbg be resumed h) (side true ops) st.
+Proof. apply two_copies_independent. Qed.
+
+(* the driver of c20.linem: the clone taken after k calls and the original yield the same remaining rows *)
+Theorem line_clone_same_tail_thm dbg be h k :
+  let '(_, _, tail_clone, tail_orig) := line_clone dbg be h k in tail_clone = tail_orig.
+Proof.
+  unfold line_clone. destruct (line_head k dbg be h (st_init h (h_program h))) as [[es early] st]. reflexivity.
+Qed.
